@@ -354,7 +354,7 @@ def pythify(rng, line):
     cur = {k: max(1, c["banks"][k]["price"] * 10 ** 8 // ONE) for k in st}
     ops = []
     for o in c["ops"]:
-        if o[0] in (30, 31, 32, 34, 35):
+        if o[0] in (30, 31, 32, 33, 34, 35, 36):
             continue          # fixture ops of the hops suite (risk admin / bank flags) do not exist in the risk suite
         if o[0] == 19 and o[1] in st:
             p = max(1, o[2] * 10 ** 8 // ONE)
@@ -400,7 +400,9 @@ def gen_liq_case(rng, dist, reduce_only_asset=False):
     pred = R.Pred(banks, orcs, na, now)
     ops = []
     feat = rng.choice(["plain", "plain", "plain", "over_liquidation", "too_severe", "liquidator_boundary", "healthy",
-                       "stale_asset_oracle", "extra_positions", "liquidator_small_deposit"])
+                       "stale_asset_oracle", "extra_positions", "liquidator_small_deposit", "liquidator_swap", "liquidator_swap"])
+    if feat == "liquidator_swap" and not others:
+        feat = "liquidator_boundary"
     dist[feat] = dist.get(feat, 0) + 1
     # lender = liquidator (0) funds the debt bank; thin liquidator (2) has little collateral
     amt = min(native(banks[lb], orcs[lb], Fraction(10 ** rng.choice([6, 8]))), 1 << 60)
@@ -424,6 +426,28 @@ def gen_liq_case(rng, dist, reduce_only_asset=False):
         a2 = native(banks[cb], orcs[cb], Fraction(rng.choice([5, 50, 500])))
         ops.append([1, 2, cb, a2, 0])
         pred.deposit(2, cb, a2)
+    if feat == "liquidator_swap":
+        # the liquidator pays out of a DEPOSIT in the debt bank (it ends with no debt there), owes another bank and sits
+        # near its initial margin: swapping the well-weighted deposit for the seized collateral can push it under
+        liqor = 2
+        ob = others[0]
+        banks[ob]["tier"] = 0
+        x = min(native(banks[ob], orcs[ob], Fraction(10 ** 7)), 1 << 60)
+        ops.append([1, 0, ob, x, 0])
+        pred.deposit(0, ob, x)
+        dep = min(native(banks[lb], orcs[lb], Fraction(rng.choice([200, 1000, 5000]))), 1 << 58)
+        ops.append([1, 2, lb, dep, 0])
+        pred.deposit(2, lb, dep)
+
+        def okq(n):
+            f = n * ONE * pred.cfg[ob]["orig"] // ONE
+            hh, _ = pred.init_health(2, {ob: (0, pred.lshares(ob, n * ONE + f))})
+            return hh >= 0
+        qmax = R.bisect_max(okq, 1 << 60)
+        if qmax >= 1:
+            q = max(1, int(qmax * rng.choice([Fraction(1), Fraction(999, 1000), Fraction(99, 100), Fraction(9, 10)])))
+            ops.append([3, 2, ob, q])
+            pred.borrow(2, ob, q)
     # liquidatee: collateral in ab (and maybe others), debt in lb near the init limit
     camt = min(native(banks[ab], orcs[ab], Fraction(rng.choice([10, 100, 1000, 54321]))), 1 << 58)
     ops.append([1, 1, ab, camt, 0])
@@ -518,6 +542,18 @@ def gen_liq_case(rng, dist, reduce_only_asset=False):
                   nsev - nsev // 10 ** 6 - 2, nsev - nsev // 1000 - 2):
             if 1 <= v <= have + 2 and v not in fams:
                 fams.append(v)
+    elif feat == "liquidator_swap":
+        def oks(n):
+            if post_health(n) is None:
+                return False
+            da = 9 if banks[ab]["tag"] == 4 else banks[ab]["dec"]
+            dl = 9 if banks[lb]["tag"] == 4 else banks[lb]["dec"]
+            v = Fraction(n) * px[ab]["rt"][0] / 10 ** da
+            q = int(v * 10 ** dl / px[lb]["rt"][1] * Fraction(975, 1000))
+            hh, _ = pred.init_health(2, {ab: (pred.ashares(ab, n), 0), lb: (-pred.ashares(lb, q), 0)})
+            return hh >= 0
+        ns = R.bisect_max(oks, max(1, have))
+        fams = family(max(1, ns), rng, hi=max(1, have + 2)) + [max(1, have // 2), max(1, have // 10)]
     elif feat == "liquidator_boundary":
         def okl(n):
             if post_health(n) is None:
